@@ -59,14 +59,12 @@ impl LocalServer {
         Ok(result.map(|x| x.0).unwrap_or(NIL_VERSION_ID))
     }
 
-    fn set_latest_version_id(&mut self, version_id: VersionId) -> Result<()> {
-        let t = self.txn()?;
+    fn set_latest_version_id(t: &rusqlite::Transaction<'_>, version_id: VersionId) -> Result<()> {
         t.execute(
             "INSERT OR REPLACE INTO data (key, value) VALUES ('latest_version_id', ?)",
             params![&StoredUuid(version_id)],
         )
         .context("Update task query")?;
-        t.commit()?;
         Ok(())
     }
 
@@ -94,8 +92,10 @@ impl LocalServer {
         Ok(r)
     }
 
-    fn add_version_by_parent_version_id(&mut self, version: Version) -> Result<()> {
-        let t = self.txn()?;
+    fn add_version_by_parent_version_id(
+        t: &rusqlite::Transaction<'_>,
+        version: Version,
+    ) -> Result<()> {
         t.execute(
             "INSERT INTO versions (version_id, parent_version_id, data) VALUES (?, ?, ?)",
             params![
@@ -104,7 +104,6 @@ impl LocalServer {
                 version.history_segment
             ],
         )?;
-        t.commit()?;
         Ok(())
     }
 }
@@ -134,18 +133,28 @@ impl Server for LocalServer {
         // invent a new ID for this version
         let version_id = Uuid::new_v4();
 
+        // The new version and the pointer to it are written in one transaction, so that an
+        // interruption cannot leave a version that is visible to get_child_version while
+        // add_version still accepts another child of its parent.
+        let t = self.txn()?;
         #[cfg(gothenburgbitfactory_taskchampion_verif)]
         crate::server::verif::failpoint("local:add_version:before_insert")?;
-        self.add_version_by_parent_version_id(Version {
-            version_id,
-            parent_version_id,
-            history_segment,
-        })?;
+        Self::add_version_by_parent_version_id(
+            &t,
+            Version {
+                version_id,
+                parent_version_id,
+                history_segment,
+            },
+        )?;
         #[cfg(gothenburgbitfactory_taskchampion_verif)]
         crate::server::verif::failpoint("local:add_version:after_insert")?;
-        self.set_latest_version_id(version_id)?;
+        Self::set_latest_version_id(&t, version_id)?;
         #[cfg(gothenburgbitfactory_taskchampion_verif)]
         crate::server::verif::failpoint("local:add_version:after_set_latest")?;
+        t.commit()?;
+        #[cfg(gothenburgbitfactory_taskchampion_verif)]
+        crate::server::verif::failpoint("local:add_version:after_commit")?;
 
         Ok((AddVersionResult::Ok(version_id), SnapshotUrgency::None))
     }
